@@ -187,7 +187,9 @@ func runC17(ctx *core.Ctx) {
 				return ok && ssax.CalleeName(&c.Call) == "(time.Time).IsZero" && isFieldLoad("Deadline")(c.Call.Args[0])
 			})
 			var dl *ssa.Call
-			for _, c := range rg.Instrs2Calls(func(c *ssa.Call) bool { return !c.Call.IsInvoke() && ssax.CalleeName(&c.Call) == "(*testing.common).Deadline" || ssax.CalleeName(&c.Call) == "(*testing.T).Deadline" }) {
+			for _, c := range rg.Instrs2Calls(func(c *ssa.Call) bool {
+				return !c.Call.IsInvoke() && ssax.CalleeName(&c.Call) == "(*testing.common).Deadline" || ssax.CalleeName(&c.Call) == "(*testing.T).Deadline"
+			}) {
 				dl = c
 			}
 			has := dl != nil && hasFact(facts, true, isVal(ssax.Extracted(dl, 1))) && st.Val == ssax.Extracted(dl, 0)
